@@ -5,7 +5,7 @@ vector / container rooted at a local, ('local', l) for a scalar parameter or mul
 opaque ('expr', repr).  Facts come only from edges that dominate the program point (sound).
 """
 from .core import operand_locals
-from .expr import E, expr_of_operand, call_arg_exprs, evaluate
+from .expr import E, expr_of_operand, call_arg_exprs, evaluate, deep_repr
 
 LEN_CALLS = ("core::slice::<impl [T]>::len", "std::vec::Vec::<T, A>::len", "types::Bytes::len",
              "core::str::<impl str>::len", "std::string::String::len")
@@ -38,14 +38,14 @@ def term_of(fn, e, view_info):
     if e.k == "local":
         return ("local", e.a)
     if e.k == "field":
-        return ("field", repr(e))
+        return ("field", deep_repr(e))
     if e.k == "binop":
         op = e.a.replace("WithOverflow", "").replace("Unchecked", "")
         l = term_of(fn, e.b, view_info)
         r = term_of(fn, e.c, view_info)
         if op in ("Add", "Sub", "Mul") and l is not None and r is not None:
             return (op, l, r)
-    return ("expr", repr(e))
+    return ("expr", deep_repr(e))
 
 
 def edge_facts(fn, view_info):
